@@ -179,11 +179,68 @@ def oracle(name, inst, res):
     return o_sample(inst, res, v, inst["spec"][1])
 
 
+def feedback_scenarios(chk):
+    """oracle-only: the subscriber feeds an element back into the source from inside its own on_next
+    (sample with an observable sampler; debounce/throttle_first driven by a hand clock are not affected by
+    feedback at the same instant and are left to the machines)"""
+    from reactivex import operators as ops
+    from reactivex.subject import Subject
+    n = 80 if chk.tier == "quick" else 1000
+    nontrivial = set()
+    for _ in range(n):
+        source, sampler = Subject(), Subject()
+        out = []
+        fb = {}                       # value -> value to push back re-entrantly when it is received
+        for v in range(chk.rng.choice([1, 2, 3])):
+            if chk.rng.random() < 0.7:
+                fb[v * 10] = v * 10 + 1
+        def on_next(v):
+            out.append(v)
+            if v in fb:
+                source.on_next(fb[v])
+        source.pipe(ops.sample(sampler)).subscribe(on_next)
+        script = []
+        for step in range(chk.rng.choice([3, 5, 8])):
+            if chk.rng.random() < 0.5:
+                script.append(("src", chk.rng.choice([0, 10, 20, 5, None])))
+            else:
+                script.append(("tick",))
+        # reference: latest not-yet-sampled element is emitted at each tick; a fed-back element is simply the
+        # newest element after that tick
+        exp, latest, has = [], None, False
+        for op in script:
+            if op[0] == "src":
+                latest, has = op[1], True
+            elif has:
+                has = False
+                exp.append(latest)
+                if latest in fb:
+                    latest, has = fb[latest], True
+        for op in script:
+            if op[0] == "src":
+                source.on_next(op[1])
+            else:
+                sampler.on_next(0)
+        chk.cov["evaluations"] += 1
+        if out != exp:
+            chk.violation(f"C16|feedback|sample|{script}"[:120],
+                          {"operator": "sample(sampler observable)", "script": script,
+                           "feedback (received value -> value pushed back into the source)": fb,
+                           "got": out, "expected": exp,
+                           "oracle": "each sampler tick emits the latest not-yet-sampled element"}, size=len(script))
+        elif len(exp) >= 2 and any(e in fb for e in exp):
+            nontrivial.add(repr((script, fb)))
+    return nontrivial
+
+
 def run(chk):
     ok = chk.build_and_prove()
     # a broken proof / theorem file: enlarge the search for a failing input to the thorough scope
     tt.run_timed(chk, "C16", NAMES, oracle, ncase=None if ok else 2000)
     tt.closed_world(chk, "C16", NAMES)
+    nt = feedback_scenarios(chk)
+    chk.cov["distinct_nontrivial"] = chk.cov.get("distinct_nontrivial", 0) + len(nt)
+    chk.cov["feedback_scenarios_nontrivial"] = len(nt)
     chk.cov["rule"] = ("per operator: seeded instances (due times / windows / periods 0/5/10/20 ms as float seconds or "
                        "timedelta; scheduler passed to the operator or to subscribe; mapper tables indexed by "
                        "invocation, 12% raising) x seeded timelines of hand-driven hot sources on the proxy "
